@@ -274,3 +274,67 @@ def ww_forward_rule(ctx, run):
                     if not ok:
                         run.fail(Finding("C18.R3w", fwd.qualname, f"{inst}: NaN ({val.why})", "the Whalley-Wilmott hedge is NaN at a step before maturity (zero volatility is a state stochastic-volatility paths reach), and stays NaN in the P&L",
                                          file=str(prog.modules[fwd.module].path), line=fwd.node.lineno, case=f"{vlab},{slab}"))
+
+
+def ww_module_width_rule(ctx, run):
+    """R3m: the same for the half-width the MODULE computes (WhalleyWilmott.width, which may or may not go through ww_width): with the gamma
+    of its Black-Scholes module an arbitrary real number - negative for binaries in the money - the width is finite and not NaN."""
+    from .. import world as W
+    from ..interp import Obj
+    from ..term import Op, Sym, subst, walk
+    prog, interp = ctx.prog, ctx.interp
+    q = "pfhedge.nn.modules.ww.WhalleyWilmott"
+    wfi = prog.lookup_method(q, "width")
+    if wfi is None:
+        raise AnalysisError("anchor vanished: WhalleyWilmott.width")
+    deriv = Obj("pfhedge.instruments.derivative.european.EuropeanOption", "deriv", {"strike": W.fl("K"), "call": True})
+    deriv.attrs["underlier"] = Obj(W.PRIMARY, "ul", {"cost": W.fl("cost")})
+    ww = Obj(q, "ww", {"a": W.fl("a"), "bs": Sym("ww.bs", ("callable",)), "derivative": deriv})
+    inp = W.tensor("input")
+    interp.shapes["input"] = (W.integer("N"), W.integer("T"), 3)
+    try:
+        res = [r for r in interp.explore(wfi, [inp], {}, self_obj=ww, max_paths=40) if not r["raises"]]
+    except Unsupported as ex:
+        raise AnalysisError(f"WhalleyWilmott.width: {ex}")
+    finally:
+        interp.shapes.pop("input", None)
+    if not res:
+        raise AnalysisError("WhalleyWilmott.width: no analysable path")
+    run.require("C18.R3m", 6)
+    for r in res:
+        term = r["value"]
+        gcalls = {s_ for s_ in walk(term) if isinstance(s_, Op) and (s_.op == "gamma" or (s_.op == "call" and "gamma" in str(s_.args[0])[:80]))}
+        if not gcalls:
+            raise AnalysisError("WhalleyWilmott.width: the gamma of the Black-Scholes module does not enter the width")
+        m = {g_: Sym("gamma") for g_ in gcalls}
+        for s_ in walk(term):
+            if isinstance(s_, Op) and s_.op == "index" and s_.args[0] == inp:
+                m[s_] = Sym("lm")
+        term2 = subst(term, m)
+        base = {"lm": fin(None, sp.Symbol("lm", real=True)), "K": fin(1, sp.Symbol("K", positive=True)), "a": fin(1, sp.Symbol("a", positive=True)), "ul.cost": None}
+        for glabel, g in (("gamma>0", fin(1, sp.Symbol("gamma", positive=True))), ("gamma<0", fin(-1, sp.Symbol("gamma", negative=True))), ("gamma=0", zero())):
+            for clabel, c in (("cost>0", fin(1, sp.Symbol("cost", positive=True))), ("cost=0", zero())):
+                case = dict(base, gamma=g)
+                for s_ in walk(term2):
+                    if isinstance(s_, Sym) and s_.name not in case:
+                        case[s_.name] = c if "cost" in s_.name else fin(1, sp.Symbol(s_.name.replace(".", "_"), positive=True))
+                case = {k_: v_ for k_, v_ in case.items() if v_ is not None}
+                for k_ in [k_ for k_ in case if "cost" in k_]:
+                    case[k_] = c
+                try:
+                    val = ExtReal(case).ev(term2)
+                except (NotImplementedError, KeyError, TypeError) as ex:
+                    raise AnalysisError(f"WhalleyWilmott.width: extended-real domain cannot model {ex}")
+                ok = val.kind in ("fin", "zero")
+                run.oblige("C18.R3m", f"WhalleyWilmott.width @ {glabel},{clabel}", ok, str(val))
+                if not ok:
+                    run.fail(Finding("C18.R3m", wfi.qualname, f"case {glabel},{clabel}: {val}", "the module's no-transaction band half-width is not a finite number: the Whalley-Wilmott hedge is NaN on such paths "
+                                     "(binary options have negative gamma in the money)", file=str(prog.modules[wfi.module].path), line=wfi.node.lineno, case=f"{glabel},{clabel}"))
+
+
+_check_before_r3m = check
+
+
+def check(ctx, run):  # noqa: F811
+    _check_before_r3m(ctx, run)
+    ww_module_width_rule(ctx, run)
